@@ -263,6 +263,21 @@ func (m c07) observe(vm *ugo.VM, bc *ugo.Bytecode) canon.Outcome {
 }
 
 // runCase executes a whole history then the observer; hist is a list of (term index, transition index).
+// c07bounded runs fn and reports whether it returned within 10 s.
+func c07bounded(fn func()) bool {
+	d := make(chan struct{})
+	go func() {
+		defer close(d)
+		fn()
+	}()
+	select {
+	case <-d:
+		return true
+	case <-time.After(10 * time.Second):
+		return false
+	}
+}
+
 // c07watchdogs counts history items of this worker that only ended through the 20 s watchdog; after two of them the
 // worker stops running histories (each costs 20 s and leaves a goroutine behind) - the run then reports what it has.
 var c07watchdogs int
@@ -291,22 +306,28 @@ func (m c07) runCase(c *core.Ctx, env *c07env, hist [][2]int, lastTransition int
 		if _, ok := involved[bc]; !ok {
 			involved[bc] = encodeBytes(bc)
 		}
-		// transition into this run
+		// transition into this run (Clear and SetBytecode take the VM's lock: they must not block on an idle VM)
 		tr := c07transitions[h[1]]
-		switch tr {
-		case "clear":
-			vm.Clear()
-			vm.SetBytecode(bc)
-		case "setbytecode-same":
-			if prev != nil {
-				vm.SetBytecode(prev)
+		if !c07bounded(func() {
+			switch tr {
+			case "clear":
+				vm.Clear()
+				vm.SetBytecode(bc)
+			case "setbytecode-same":
+				if prev != nil {
+					vm.SetBytecode(prev)
+				}
+				vm.SetBytecode(bc)
+			case "setbytecode-other":
+				vm.SetBytecode(bc)
+			case "clear+setbytecode":
+				vm.Clear()
+				vm.SetBytecode(bc)
 			}
-			vm.SetBytecode(bc)
-		case "setbytecode-other":
-			vm.SetBytecode(bc)
-		case "clear+setbytecode":
-			vm.Clear()
-			vm.SetBytecode(bc)
+		}) {
+			c.Violation("C07|vm-blocks-after|"+strings.Join(names, ","), "Clear / SetBytecode block (10 s) on a VM whose earlier run has ended: "+strings.Join(names, ","), c07wit{History: append(append([]string{}, names...), "then "+tr), Why: "Clear/SetBytecode do not return"})
+			c07watchdogs = 2
+			return true
 		}
 		kind := c07runItem(vm, t, bc)
 		if kind == "hung" || kind == "watchdog" {
@@ -324,10 +345,16 @@ func (m c07) runCase(c *core.Ctx, env *c07env, hist [][2]int, lastTransition int
 	}
 	// transition to the observer: the statement requires Clear or new bytecode
 	lt := []string{"setbytecode", "clear+setbytecode"}[lastTransition%2]
-	if lt == "clear+setbytecode" {
-		vm.Clear()
+	if !c07bounded(func() {
+		if lt == "clear+setbytecode" {
+			vm.Clear()
+		}
+		vm.SetBytecode(obs)
+	}) {
+		c.Violation("C07|vm-blocks-after|"+strings.Join(names, ","), "Clear / SetBytecode block (10 s) on a VM whose earlier run has ended: "+strings.Join(names, ","), c07wit{History: append(append([]string{}, names...), "then "+lt), Observer: observerSrc, Why: "Clear/SetBytecode do not return"})
+		c07watchdogs = 2
+		return true
 	}
-	vm.SetBytecode(obs)
 	used := m.observe(vm, obs)
 	fresh := m.observe(ugo.NewVM(obs), obs)
 	c.Count("histories")
